@@ -55,6 +55,11 @@ type FuncCtx struct {
 	siteName map[ssa.Instruction]string
 	maxPaths int
 	globalObjs map[*ssa.Global]*Object
+	suspended  map[*ssa.BasicBlock][]*State
+	siteObjs   map[string]*Object
+	joinPCs    []map[string]bool
+	joinCache  map[string]Term
+	joinPtrs   map[string]*LazyCell
 }
 
 type CutInfo struct {
@@ -94,6 +99,7 @@ type State struct {
 	logs     []*writeLog
 	discover *discoverCtx // non-nil in discovery mode
 	dead     bool
+	allocN   map[ssa.Instruction]int // per-path execution counts of allocating instructions
 }
 
 type discoverCtx struct {
@@ -151,6 +157,10 @@ func (st *State) clone() *State {
 	}
 	ns.pc = st.pc[:len(st.pc):len(st.pc)]
 	ns.logs = st.logs
+	ns.allocN = make(map[ssa.Instruction]int, len(st.allocN))
+	for k, v := range st.allocN {
+		ns.allocN[k] = v
+	}
 	for _, f := range st.stack {
 		nf := *f
 		nf.vals = make(map[ssa.Value]Value, len(f.vals))
@@ -393,15 +403,55 @@ func sccs(fn *ssa.Function) map[*ssa.BasicBlock]int {
 // explore runs all paths from the given states; onReturn is called when the outermost frame returns.
 func (fx *FuncCtx) explore(start *State, onReturn func(st *State, results []Value)) {
 	work := []*State{start}
-	for len(work) > 0 {
-		st := work[len(work)-1]
-		work = work[:len(work)-1]
-		if fx.aborted != "" {
+	saved := fx.suspended
+	fx.suspended = map[*ssa.BasicBlock][]*State{}
+	defer func() { fx.suspended = saved }()
+	for {
+		for len(work) > 0 {
+			st := work[len(work)-1]
+			work = work[:len(work)-1]
+			if fx.aborted != "" {
+				return
+			}
+			forks := fx.run(st, onReturn)
+			work = append(work, forks...)
+		}
+		if len(fx.suspended) == 0 {
 			return
 		}
-		forks := fx.run(st, onReturn)
-		work = append(work, forks...)
+		// resume the earliest suspended loop head with the join of all its arrivals
+		var head *ssa.BasicBlock
+		for h := range fx.suspended {
+			if head == nil || h.Index < head.Index {
+				head = h
+			}
+		}
+		sts := fx.suspended[head]
+		delete(fx.suspended, head)
+		js := fx.joinStates(sts)
+		fx.resumeAtHead(js, head)
+		work = append(work, js)
 	}
+}
+
+// resumeAtHead performs the havoc / assume-invariant step of a loop head on a (joined) state.
+func (fx *FuncCtx) resumeAtHead(st *State, blk *ssa.BasicBlock) {
+	f := st.top()
+	ci := fx.cuts(f.fn)
+	ord := ci.heads[blk]
+	fx.havocLoop(st, f, blk, ci.body[blk])
+	lv := &loopVisit{}
+	f.visited[blk] = lv
+	fx.assumeInvariants(st, f, ord, lv)
+	f.idx = 0
+	for f.idx < len(blk.Instrs) {
+		if _, ok := blk.Instrs[f.idx].(*ssa.Phi); ok {
+			f.idx++
+		} else {
+			break
+		}
+	}
+	f.entered = true
 }
 
 // run executes st until the path ends or forks; returns forked states to continue.
@@ -549,6 +599,11 @@ func (fx *FuncCtx) enterBlock(st *State) (bool, []*State) {
 		// first arrival
 		fx.evalPhis(st)
 		fx.assertInvariants(st, f, ord, "established", nil)
+		if len(st.stack) == 1 && st.discover == nil && fx.suspended != nil {
+			// suspend: all first arrivals at this head are joined into one state (join.go)
+			fx.suspended[blk] = append(fx.suspended[blk], st)
+			return true, nil
+		}
 		fx.havocLoop(st, f, blk, ci.body[blk])
 		lv := &loopVisit{}
 		f.visited[blk] = lv
@@ -782,3 +837,25 @@ func (fx *FuncCtx) constValue(c *ssa.Const) Value {
 }
 
 var _ = ast.Print
+
+// siteObject returns the heap object allocated by instruction in at its n-th execution on this
+// path. Identity is shared between paths (the same allocation site and occurrence is the same
+// object in every path), which lets states be joined at loop heads.
+func (st *State) siteObject(in ssa.Instruction, t types.Type, name string) *Object {
+	fx := st.fx
+	if st.allocN == nil {
+		st.allocN = map[ssa.Instruction]int{}
+	}
+	n := st.allocN[in]
+	st.allocN[in] = n + 1
+	key := fmt.Sprintf("%p/%d/%d/%s", in, len(st.stack), n, name)
+	if fx.siteObjs == nil {
+		fx.siteObjs = map[string]*Object{}
+	}
+	if o, ok := fx.siteObjs[key]; ok {
+		return o
+	}
+	o := fx.newObject(t, name)
+	fx.siteObjs[key] = o
+	return o
+}
